@@ -256,7 +256,7 @@ func (e *c07env) runSchedule(t *tracer, sc scenario, prefix []int, schedID int, 
 			h := m.Wrap(http.HandlerFunc(func(w2 http.ResponseWriter, _ *http.Request) {
 				ctl.gate("Handler")
 				invoked++
-				w2.WriteHeader(200)
+				commitAndEdit(w2, w.h, 200) // (the recorder's own map: no scheduler gate)
 			}))
 			h.ServeHTTP(&gatedRW{rec: w, c: ctl}, newReq(rs.Method, cloneHeader(rs.H)))
 			ti.result = respFP(w, invoked)
@@ -369,11 +369,18 @@ func (e *c07env) runSchedule(t *tracer, sc scenario, prefix []int, schedID int, 
 		}
 		if sc.PostProbe {
 			emitOp("pc", wop{Kind: "config"})
-			for k, rs := range e.reqs {
-				id := fmt.Sprintf("q%d", k)
-				t.emit(map[string]any{"ev": "Begin", "t": id, "kind": "request", "req": k, "op": "config"})
-				sv := serve(m, newReq(rs.Method, cloneHeader(rs.H)), nil)
-				t.emit(map[string]any{"ev": "End", "t": id, "kind": "request", "req": k, "op": "config", "fp": respFP(sv.w, sv.invoked), "err": false, "gates": "", "nowrite": false})
+			// twice: the second pass (and the second Config()) shows what the requests of the first one - whose handlers go on editing
+			// the header values they were given after committing the response - have left behind
+			for pass, pfx := range []string{"q", "s"} {
+				if pass == 1 {
+					emitOp("pd", wop{Kind: "config"})
+				}
+				for k, rs := range e.reqs {
+					id := fmt.Sprintf("%s%d", pfx, k)
+					t.emit(map[string]any{"ev": "Begin", "t": id, "kind": "request", "req": k, "op": "config"})
+					sv := serve(m, newReq(rs.Method, cloneHeader(rs.H)), nil)
+					t.emit(map[string]any{"ev": "End", "t": id, "kind": "request", "req": k, "op": "config", "fp": respFP(sv.w, sv.invoked), "err": false, "gates": "", "nowrite": false})
+				}
 			}
 		}
 	}
